@@ -91,6 +91,74 @@ theorem C20_backup (s : St) (db : DB) (g : GDir) (dest : String) (cfg' : Cfg)
   · intro k; exact delete_get_other S k db hSdb dest hne
   · exact syncDB_get_other S db hSdb dest hne
 
+/-- **C20, a backup into a directory that is NOT empty** — typically the directory of an earlier
+    backup of the same database.  `dest` is any directory other than the data directory itself, not
+    held open, without an adoptable merge directory of its own; whatever data files and hint file it
+    held before are gone or overwritten (`removeStaleBackupFiles` + `CopyDir`): the copy's data files
+    are byte for byte the ghost files `g` and its hint file is the source's (or absent), so that all
+    four clauses of `C20_backup` hold again.  (Before repair ca47810 `CopyDir` only added and
+    overwrote: a data file that a merge had reclaimed in the source meanwhile survived in `dest`
+    and was replayed when the copy was opened — deleted keys came back, overwritten values
+    returned; the hypothesis `hfresh` of `C20_backup` excluded exactly that.) -/
+theorem C20_backup_over (s : St) (db : DB) (g : GDir) (dest : String) (cfg' : Cfg)
+    (hdb : s.db = some db) (hinv : Inv s db g)
+    (hne : dest ≠ db.dir) (hunl : ((s.world.get dest).getD DirSt.empty).locked = false)
+    (hplan : plan s.world dest = none) (hcfg : cfg'.Valid) :
+    ∃ s', backup s dest = (s', .ok) ∧
+      -- 1. source unaffected
+      s'.db = some db ∧ (∀ n, n ≠ dest → s'.world.get n = s.world.get n) ∧ Inv s' db g ∧
+      (∀ k, absGet s' db k = absGet s db k) ∧
+      -- 2. the copy
+      (∃ dd, s'.world.get dest = some dd ∧ dd.locked = false ∧ Matches dd.data g ∧ dd.hint = (dirOf s db).hint) ∧
+      -- 3. the copy opens to the mapping at backup time
+      (∃ s'' db'', (close s').2 = .ok ∧ openDB (close s').1 dest cfg' = (s'', .ok) ∧ s''.db = some db'' ∧
+        db''.dir = dest ∧ db''.cfg = cfg' ∧ Inv s'' db'' g ∧ (∀ k, absGet s'' db'' k = absGet s db k)) ∧
+      -- 4. later source writes do not touch the copy
+      (∀ k v, (put s' k v).1.world.get dest = s'.world.get dest) ∧
+      (∀ k, (delete s' k).1.world.get dest = s'.world.get dest) ∧
+      ((syncDB s').1.world.get dest = s'.world.get dest) := by
+  obtain ⟨d, hd, hlock, hm⟩ := hinv.dir
+  have hb := backup_eq' s db d dest hdb hd
+  rw [hunl] at hb
+  generalize ((s.world.get dest).getD DirSt.empty).marker = mk at hb
+  have hms : Matches (syncAll d.data) g := Matches_syncAll hm
+  obtain ⟨S, hS⟩ : ∃ S : St, S = ⟨s.world.set dest ⟨syncAll d.data, d.hint, mk, false⟩, s.db⟩ := ⟨_, rfl⟩
+  rw [← hS] at hb
+  have hSw : S.world = s.world.set dest ⟨syncAll d.data, d.hint, mk, false⟩ := by rw [hS]
+  have hSdb : S.db = some db := by rw [hS]; exact hdb
+  have hSd : S.world.get db.dir = some d := by rw [hSw, MergeP.get_set_ne _ _ _ _ hne.symm]; exact hd
+  have hSdest : S.world.get dest = some ⟨syncAll d.data, d.hint, mk, false⟩ := by rw [hSw, MergeP.get_set_self]
+  refine ⟨S, hb, hSdb, ?_, ?_, ?_, ?_, ?_, ?_, ?_, ?_⟩
+  · intro n hn; rw [hSw]; exact MergeP.get_set_ne _ _ _ _ hn
+  · exact ⟨⟨d, hSd, hlock, hm⟩, hinv.asc, hinv.active, hinv.recs,
+      hinv.index, hinv.sorted, hinv.counters, hinv.nobatch⟩
+  · intro k
+    apply absGet_congr _ _ _ _ rfl
+    intro id
+    simp only [dirOf, hSd, hd]
+  · exact ⟨_, hSdest, rfl, hms, by simp only [dirOf, hd, Option.getD_some]⟩
+  · -- open the copy
+    have hclose := close_eq S db d hSdb hSd
+    rw [hclose]
+    simp only []
+    have hplan' : plan (S.world.set db.dir { d with data := syncAll d.data, locked := false }) dest = none := by
+      rw [plan_set S.world db.dir dest { d with data := syncAll d.data, locked := false } (Or.inr ⟨d, hSd, rfl⟩), hSw,
+        plan_set _ _ _ _ (Or.inl (mname_ne dest).symm)]
+      exact hplan
+    have hopen := openDB_ghost
+      { world := S.world.set db.dir { d with data := syncAll d.data, locked := false }, db := none }
+      dest cfg' ⟨syncAll d.data, d.hint, mk, false⟩ g db.activeId rfl hcfg
+      (by show World.get _ dest = _; rw [MergeP.get_set_ne _ _ _ _ hne, hSdest]) rfl hplan' hms hinv.recs hinv.active
+    have hinv'' := Inv_scanDB
+      ((S.world.set db.dir { d with data := syncAll d.data, locked := false }).set dest
+        { (⟨syncAll d.data, d.hint, mk, false⟩ : DirSt) with locked := true })
+      dest cfg' _ g db.activeId (MergeP.get_set_self _ _ _) rfl hms hinv.asc hinv.recs hinv.active
+      { world := _, db := some (scanDB cfg' dest db.activeId g) } rfl
+    exact ⟨_, _, trivial, hopen, rfl, rfl, rfl, hinv'', fun k => absGet_same_ghost hinv'' hinv k⟩
+  · intro k v; exact put_get_other S k v db hSdb dest hne
+  · intro k; exact delete_get_other S k db hSdb dest hne
+  · exact syncDB_get_other S db hSdb dest hne
+
 /-! ## the mmap path of `Backup`: `ResetFileSize` shrinks the 512 MiB-extended files first, and the
     source keeps appending afterwards (`Model/Fio.lean`) -/
 
